@@ -359,6 +359,57 @@ func keyInjectivity(r *core.Run) {
 		r.Eval("height/"+h.String(), true)
 		r.Count("heights_keyed", 1)
 	}
+	// keys are values: a key that was built stays what it is when the next key is built (callers keep several at once, and
+	// the stores keep the slices they are given), and appending to one key never writes into another
+	type builder struct {
+		name string
+		f    func(i int) []byte
+	}
+	hs := make([]clienttypes.Height, 64)
+	for i := range hs {
+		hs[i] = core.GenHeight(rng)
+	}
+	nm := func(i int) string { return fmt.Sprintf("chain-%d", i%7) }
+	builders := []builder{
+		{"ConsensusStateKey", func(i int) []byte { return host.ConsensusStateKey(hs[i%len(hs)]) }},
+		{"FullConsensusStateKey", func(i int) []byte { return host.FullConsensusStateKey(nm(i), hs[i%len(hs)]) }},
+		{"ClientStateKey", func(i int) []byte { return host.ClientStateKey() }},
+		{"FullClientStateKey", func(i int) []byte { return host.FullClientStateKey(nm(i)) }},
+		{"NextSequenceSendKey", func(i int) []byte { return host.NextSequenceSendKey(nm(i), nm(i+1)) }},
+		{"PacketCommitmentKey", func(i int) []byte { return host.PacketCommitmentKey(nm(i), nm(i+1), uint64(i)*7919) }},
+		{"PacketReceiptKey", func(i int) []byte { return host.PacketReceiptKey(nm(i), nm(i+1), uint64(i)*7919) }},
+		{"PacketAcknowledgementKey", func(i int) []byte { return host.PacketAcknowledgementKey(nm(i), nm(i+1), uint64(i)*7919) }},
+		{"PacketRelayerKey", func(i int) []byte { return host.PacketRelayerKey(nm(i), nm(i+1), uint64(i)*7919) }},
+		{"tendermint.ProcessedTimeKey", func(i int) []byte { return tmtypes.ProcessedTimeKey(hs[i%len(hs)]) }},
+		{"tendermint.IterationKey", func(i int) []byte { return tmtypes.IterationKey(hs[i%len(hs)]) }},
+		{"eth.EthHeaderIndexKey", func(i int) []byte { return ethtypes.EthHeaderIndexKey(common.BigToHash(big.NewInt(int64(i)*104729)), uint64(i)) }},
+		{"eth.EthRootMainKey", func(i int) []byte { return ethtypes.EthRootMainKey(common.BigToHash(big.NewInt(int64(i)*104729)), uint64(i)) }},
+	}
+	for _, b := range builders {
+		const k = 24
+		held := make([][]byte, k)
+		want := make([]string, k)
+		for i := 0; i < k; i++ {
+			held[i] = b.f(i)
+			want[i] = string(held[i]) // a copy
+		}
+		for i := 0; i < k; i++ {
+			if string(held[i]) != want[i] {
+				r.Violation("keys", "keys/aliasing/"+b.name+"/a-key-changed-when-a-later-key-was-built", map[string]interface{}{"index": i, "built_as": core.Hex([]byte(want[i])), "now": core.Hex(held[i])})
+				break
+			}
+		}
+		// appending to a returned key (as ProcessedTimeKey-style helpers do) must not reach the next key of the same builder
+		a := b.f(1)
+		_ = append(a, []byte("/tail-written-by-the-caller")...)
+		c := b.f(2)
+		_ = append(a, []byte("/other-tail")...)
+		if string(c) != want[2] || string(b.f(1)) != want[1] {
+			r.Violation("keys", "keys/aliasing/"+b.name+"/append-to-one-key-reaches-another", map[string]interface{}{"built_as": core.Hex([]byte(want[2])), "now": core.Hex(c)})
+		}
+		r.Eval("aliasing/"+b.name, true)
+		r.Count("key_builders_checked_for_aliasing", 1)
+	}
 }
 
 // --------------------------------------------------------- store read-back
@@ -614,6 +665,16 @@ func storeReadBack(r *core.Run) {
 					return nil
 				})
 				reportHeights(r, cid, "tendermint.IterateProcessedTime", heights, gotPT, err)
+				// the iteration entry of every height still holds that height's consensus-state key after all the others were written
+				for _, h := range heights {
+					want := append([]byte("consensusStates/"), make([]byte, 16)...)
+					binary.BigEndian.PutUint64(want[16:], h.RevisionNumber)
+					binary.BigEndian.PutUint64(want[24:], h.RevisionHeight)
+					if got := tmtypes.GetIterationKey(store, h); !bytes.Equal(got, want) {
+						r.Violation(cid, "readback/tendermint.GetIterationKey/entry-holds-the-key-of-another-height", map[string]interface{}{"height": h.String(), "want": core.Hex(want), "got": core.Hex(got)})
+						break
+					}
+				}
 			case exported.BSC:
 				got := map[string]bool{}
 				err, _ := core.Catch(func() error {
